@@ -102,6 +102,8 @@ def u_read_list(ctx, index):
   ip.ext[('truth', 'Atom')] = lambda ip2, v: z3.Not(IS_BLANK(v))
   Q = RL + '.read_list'
 
+  st = {}
+
   def accepted(line):
     return z3.And(z3.Not(IS_COMMENT(line)), z3.Not(IS_BLANK(STRIP(line))), COMPILES(STRIP(line)))
 
@@ -109,11 +111,19 @@ def u_read_list(ctx, index):
     return elem == COMPILE(STRIP(line))
 
   def lst(fr):
-    v = fr['new_regex_list']
+    # the list being built: the one local that is an empty list when the loop is entered
+    # (`new_regex_list` in the code as it stands; the contract does not depend on the name)
+    if 'lname' not in st:
+      cands = [k for k, v in fr.locals.items() if isinstance(v, PyList) and not v.items]
+      if len(cands) != 1:
+        raise EngineError("read_list: cannot identify the list under construction (%r)" % (cands,))
+      st['lname'] = cands[0]
+    name = st['lname']
+    v = fr[name]
     if isinstance(v, PyList):
       v = v.to_symseq(ip, TRegex)
       v.name = 'new_regex_list'
-      fr.locals['new_regex_list'] = v
+      fr.locals[name] = v
     return v
 
   def pre(fr):
@@ -133,7 +143,6 @@ def u_read_list(ctx, index):
   def step(fr):
     CM.ordered_filter_step(fr, lst(fr).term, fr.ghost['before'], fr.loop_k[0] - 1)
     ctx.cover('read_list/line_done')
-  st = {}
   ip.loops[(Q, 0)] = LoopSpec('for line in open(self.list_file)', inv, havoc, ghost_pre=pre, ghost_step=step, locals_modified=[])
   raised = None
   try:
